@@ -288,6 +288,12 @@ def _run_cmd_case(ctx, case) -> F.Outcome:
             idx = IR.read_index(zd)
             if broken and Z.cli_ok(r):
                 problems.append(("reindex-accepted-broken-page", {"index": idx["pages"].get("zz_target.zo")}))
+            if broken and not Z.cli_ok(r):
+                # refused: the page must not have been re-indexed as an empty / partial page on the way
+                pg = idx["pages"].get("zz_target.zo")
+                zids = sorted(n["zid"] for n in pg["notes"]) if pg else None
+                if zids != ["240103#T1"]:
+                    problems.append(("refused-page-no-longer-indexed-as-it-was", {"notes_now": zids, "has_errors": pg and pg["has_errors"]}))
             if not broken and not Z.cli_ok(r):
                 problems.append(("reindex-refused-clean-page", {"err": r.err[-400:]}))
             if not broken:
